@@ -1265,6 +1265,9 @@ func c06CheckHdr(c c06HdrCase) engine.Result {
 
 // ---- scenario "type-tag-product" --------------------------------------------------------------------------
 
+// C06WellKnownFormatIDs: registration format_identifiers in common use (SMPTE-RA), also used by C20.
+var C06WellKnownFormatIDs = []string{"AC-3", "EAC3", "DTS1", "DTS2", "DTS3", "HEVC", "VC-1", "CUEI", "ID3 ", "KLVA", "Opus", "BSSD", "drac", "DOVI", "GA94", "HDMV", "ETV1", "AVSV", "mlpa", "SCTE"}
+
 type c06ProdCase struct {
 	Type int `json:"stream_type"`
 }
@@ -1273,8 +1276,16 @@ type c06ProdCase struct {
 // decoded must be what the section says, whatever the pair means to a helper that interprets either.
 func c06CheckProd(c c06ProdCase) engine.Result {
 	var res engine.Result
-	bodies := [][]byte{{}, []byte("eng\x00"), {0x44, 0x4F, 0x56, 0x49, 0x01, 0x10}}
+	bodies0 := [][]byte{{}, []byte("eng\x00"), {0x44, 0x4F, 0x56, 0x49, 0x01, 0x10}}
 	for tag := 0; tag < 256; tag++ {
+		bodies := bodies0
+		if tag == 0x05 {
+			// registration descriptors with the format identifiers in common use (what a helper that "knows" private
+			// streams would key on): the stream entry is reported as the section has it all the same
+			for _, id := range C06WellKnownFormatIDs {
+				bodies = append(bodies, []byte(id))
+			}
+		}
 		for bi, body := range bodies {
 			sec := ref.PMTSection{Program: 1, Version: byte(tag & 31), CurrentNext: true, PCRPID: 0x100, Streams: []ref.Stream{
 				{Type: byte(c.Type), PID: 0x100, Descs: []ref.Desc{{Tag: 0x0A, Body: []byte("fra\x01")}, {Tag: byte(tag), Body: body}}},
@@ -1667,7 +1678,7 @@ func init() {
 			},
 			&engine.Enum[c06ProdCase]{
 				Name: "type-tag-product",
-				Rule: "all 256 stream types x all 256 descriptor tags x 3 bodies (empty, a language body, a DOVI-like body; the descriptor second or first in the loop) within ONE stream entry, next to a language descriptor and a plain second stream: NewPMT (and ReadPMT from one packet for the empty body and every 16th tag) must report exactly the stream_type, PID, tags and bodies of the section, whatever the pair means to the stream-type or descriptor helpers",
+				Rule: "all 256 stream types x all 256 descriptor tags x 3 bodies (empty, a language body, a DOVI-like body; the descriptor second or first in the loop; for tag 0x05 also 20 registration format identifiers in common use: AC-3, EAC3, DTS1, HEVC, CUEI, ...) within ONE stream entry, next to a language descriptor and a plain second stream: NewPMT (and ReadPMT from one packet for the empty body and every 16th tag) must report exactly the stream_type, PID, tags and bodies of the section, whatever the pair means to the stream-type or descriptor helpers",
 				Gen: func(r *engine.Run, emit func(c06ProdCase)) {
 					for t := 0; t < 256; t++ {
 						emit(c06ProdCase{t})
